@@ -13,4 +13,11 @@ void h_isfinite(void) {
   __CPROVER_assert(IsFinite_and(&ac, a, b) == (a && b), "combine is logical AND");
   __CPROVER_assert(IsFinite_and(&ac, a, b) == IsFinite_and(&ac, b, a) && IsFinite_and(&ac, IsFinite_and(&ac, a, b), c) == IsFinite_and(&ac, a, IsFinite_and(&ac, b, c)) && IsFinite_and(&ac, 1, a) == a, "commutative, associative, neutral initial value: any reduction order gives the conjunction over all vertices");
 }
+void h_box_isfinite(void) {
+  struct Box b;
+  HARNESS_END;
+  SATISFIABLE(FIN(b.min.x) && FIN(b.min.y) && FIN(b.min.z) && FIN(b.max.x) && FIN(b.max.y) && !(b.max.z == b.max.z));
+  _Bool r = Box_IsFinite(&b);
+  __CPROVER_assert(r == (FIN(b.min.x) && FIN(b.min.y) && FIN(b.min.z) && FIN(b.max.x) && FIN(b.max.y) && FIN(b.max.z)), "a box is finite exactly when all six coordinates are (NaN and both infinities rejected in every slot)");
+}
 #endif
